@@ -124,6 +124,18 @@ def get_char_value_and_length(s: str) -> Tuple[int, int]:
 
 
 # noinspection PyUnboundLocalVariable,PyRedeclaration,PyPep8Naming,PyMethodMayBeStatic
+def _decimal_literal_value(digits: str) -> int:
+    """
+    int() refuses decimal strings longer than sys.get_int_max_str_digits() (4300 by default), but numbers are unbounded here.
+    """
+    chunk_size = 4000
+    value = 0
+    for i in range(0, len(digits), chunk_size):
+        chunk = digits[i : i + chunk_size]
+        value = value * 10 ** len(chunk) + int(chunk)
+    return value
+
+
 class FJLexer(sly.Lexer):
     # noinspection PyUnresolvedReferences
     tokens = {
@@ -234,7 +246,7 @@ class FJLexer(sly.Lexer):
             elif n[1] in 'bB':
                 t.value = int(n, 2)
             else:
-                t.value = int(n)
+                t.value = _decimal_literal_value(n)
         else:
             t.value = int(t.value)
         return t
